@@ -213,6 +213,16 @@ func (e *Enc) instrEffect(in ssa.Instruction, ef *effect) {
 			if e.db.pureFns[callee.String()] {
 				return
 			}
+			if op, ok := headerOps[callee.String()]; ok {
+				if op != "get" {
+					if !mapWriteNames(c.Args[0].Type(), ef.names) {
+						ef.all = true
+					}
+					ef.names["C|string|"] = true
+					arrSorts["C|string|"] = "(Array Ref Str)"
+				}
+				return
+			}
 			if pkgPathOf(callee) == "sort" && len(c.Args) > 0 {
 				// sort.Strings / sort.Slice / sort.Ints ...: writes only the elements of the slice it is given
 				t := c.Args[0].Type()
